@@ -354,6 +354,20 @@ func (r *Run) Finish(rule string, floor int, assumptions ...string) {
 	for k, v := range r.extra {
 		cov[k] = v
 	}
+	// a check made of two builds (plain pre-phase, then the main phase under -race): the
+	// pre-phase hands its observations to the main phase, whose evidence file is the final one
+	if p := os.Getenv("VERIF_CARRY_OUT"); p != "" {
+		cb, _ := json.Marshal(map[string]any{"evaluations": r.evals, "distinct": len(r.distinct), "observed": r.counters, "verdict": status, "wall_s": wall})
+		_ = os.WriteFile(p, cb, 0o644)
+	}
+	if p := os.Getenv("VERIF_CARRY_IN"); p != "" {
+		if cb, err := os.ReadFile(p); err == nil {
+			var carried map[string]any
+			if json.Unmarshal(cb, &carried) == nil {
+				cov["plain_build_phase"] = carried
+			}
+		}
+	}
 	ev := map[string]any{
 		"property_id": r.ID, "tier": r.Tier, "seed": r.Seed, "level": r.Level,
 		"coverage": cov, "assumptions": assumptions, "wall_s": wall, "violations": r.violCount,
